@@ -50,7 +50,8 @@ fn text_of(id: &str) -> Option<(i64, String)> {
                 _ => format!("{{ ... on Query {{ mark(id: {m}) }} }}"),
             }))
         }
-        b'g' => Some((1000 + n, format!("{{ mark(id: {}) }}", 1000 + n))),
+        // every second one carries surrounding white space, which belongs to the text that is hashed
+        b'g' => Some((1000 + n, if n % 2 == 0 { format!(" \n{{ mark(id: {}) }}  ", 1000 + n) } else { format!("{{ mark(id: {}) }}", 1000 + n) })),
         b'i' => {
             let m = 500 + n;
             Some((m, if n % 2 == 1 { format!("{{ mark(id: {m}) nosuch }}") } else { format!("{{ mark(id: {m}, bogus: 1) }}") }))
